@@ -257,7 +257,63 @@ def oracle_hop_to_it_shift(args):
 
 
 from .. import runcommon as rc
-ORACLES = {"hop_to_it_shift": oracle_hop_to_it_shift, "whole_run": rc.oracle_whole_run, "run_moments": oracle_run_moments, "hermitian": oracle_hermitian, "hop_shift": oracle_hop_shift, "collapse": oracle_collapse,
+@safe_oracle
+def oracle_after_collapse(args):
+    """what follows a collapse: the moments are zero and from then on evolve as those of a trajectory that STARTS with zero moments in the
+    same pure state - through the class's own moment steps (either integrator) and its hop shift. A twin that never collapsed (fresh
+    zero moments, same pure rho, same label) is taken through the same calls; both have to agree after every call, and after the
+    accepted hop the new state's diagonal moments vanish in both."""
+    rng = np.random.Generator(np.random.PCG64(args["seed"]))
+    c = _case(rng, N=2)
+    c["rho"] = np.array([[1.0, 0.0], [0.0, 0.0]], dtype=np.complex128) if int(args["state"]) == 0 else np.array([[0.0, 0.0], [0.0, 1.0]], dtype=np.complex128)
+    mode = args["mode"]
+    problems = []
+    t = _afssh(c, mode)
+    t.state = int(args["state"])
+    t.rho = np.array(c["rho"])
+    t.delR = np.array(c["delR"])
+    t.delP = np.array(c["delP"])
+    t.gamma_collapse = lambda electronics=None: np.array([2.0, 2.0])
+    t.hopper = lambda g: []
+    e0, e1 = _elecs(c)
+    t.surface_hopping(e0, e1)                      # the collapse
+    if np.any(t.delR) or np.any(t.delP) or len(t.tracer.events.get("collapse", [])) != 1:
+        problems.append("no collapse / moments not zero after it")
+    twin = _afssh(c, mode)
+    twin.state = t.state
+    twin.rho = np.array(t.rho)
+    for k in range(int(args["steps"])):
+        for tr_ in (t, twin):
+            tr_.advance_delR(e0, e1)
+            tr_.advance_delP(e0, e1)
+        for nm in ("delR", "delP"):
+            a_, b_ = getattr(t, nm), getattr(twin, nm)
+            sc = float(np.max(np.abs(b_))) + 1e-300
+            if not np.all(np.isfinite(a_)) or float(np.max(np.abs(a_ - b_))) > 1e-11 * sc:
+                problems.append("moment step %d after the collapse (%s integrator): %s differs from that of a trajectory started with zero "
+                                "moments by %.3g (scale %.3g)" % (k + 1, mode, nm, float(np.max(np.abs(a_ - b_))), sc))
+        if problems:
+            break
+    if not problems:
+        tgt = 1 - t.state
+        before = {nm: np.array(getattr(t, nm)) for nm in ("delR", "delP")}
+        for tr_ in (t, twin):
+            tr_.hop_update(tr_.state, tgt)
+        for nm in ("delR", "delP"):
+            X, X0 = getattr(t, nm), before[nm]
+            sc = float(np.max(np.abs(X0))) + 1e-300
+            if float(np.max(np.abs(X[:, tgt, tgt]))) > 1e-12 * sc:
+                problems.append("hop after a collapse: the new active state's diagonal %s does not vanish (%.3g of %.3g)" % (nm, float(np.max(np.abs(X[:, tgt, tgt]))), sc))
+            d_new = X[:, 0, 0] - X[:, 1, 1]
+            d_old = X0[:, 0, 0] - X0[:, 1, 1]
+            if float(np.max(np.abs(d_new - d_old))) > 1e-12 * sc:
+                problems.append("hop after a collapse: the difference of the diagonal %s changed" % nm)
+            if float(np.max(np.abs(X - getattr(twin, nm)))) > 1e-11 * sc:
+                problems.append("hop after a collapse: %s differs from the never-collapsed twin" % nm)
+    return not problems, {"problems": problems[:3]}, {"problems": []}, "; ".join(problems[:2]) or "ok"
+
+
+ORACLES = {"after_collapse": oracle_after_collapse, "hop_to_it_shift": oracle_hop_to_it_shift, "whole_run": rc.oracle_whole_run, "run_moments": oracle_run_moments, "hermitian": oracle_hermitian, "hop_shift": oracle_hop_shift, "collapse": oracle_collapse,
            "integrators_agree": oracle_integrators_agree, "initial_zero": oracle_initial_zero}
 
 
@@ -493,6 +549,13 @@ def run(ctx):
         ctx.count("afssh_run_collapses", int(obs["collapses"]))
         if not ok:
             ctx.oracle_fail("afssh-run-moments:" + a["integ"], "run_moments", a, obs, req, text)
+    for i in range(ctx.budget(8, 200)):
+        a = {"seed": int(rng.integers(1, 10 ** 6)), "mode": ["rk4", "exp"][i % 2], "state": (i // 2) % 2, "steps": int(rng.integers(1, 4))}
+        ok, obs, req, text = oracle_after_collapse(a)
+        ctx.case(("after-collapse", a["mode"], a["state"]))
+        ctx.count("collapse_then_steps_then_hop:" + a["mode"])
+        if not ok:
+            ctx.oracle_fail("after-collapse:" + a["mode"], "after_collapse", a, obs, req, text)
     for i in range(ctx.budget(6, 100)):
         a = {"seed": int(rng.integers(1, 10 ** 6)), "dt": 0.2, "which": ["R", "P"][i % 2], "int_mass": i % 3 == 2}
         ok, obs, req, text = oracle_integrators_agree(a)
